@@ -5,6 +5,21 @@ IDS = ["C%02d" % i for i in range(1, 21)]
 
 # id -> (engine, category, technique, text, note, design_ref)
 CHECKS = {
+ "C02": ("E2-bisync-statespace", "model_checking",
+   "explicit-state BFS over bisync histories; every bisync transition executes the real run_bisync on a materialised pre-state; transitions re-validated with the built CLI binary",
+   "All histories over {write(side,path,content), delete(side,path), bisync} from every initial tree pair over the base path universe, 3 contents ordered by BLAKE3 (one empty), paths = base universe plus every path present on either side (so conflict-copies are edited and collided with), up to E runs and M edits between runs (quick: {f} E=3 M=2 and {f,d/g} E=2 M=1; thorough: {f} E=4 M=2 and {f,d/g} E=3 M=2). Oracle on every bisync transition: a pre-run version may vanish only if it is the last common version and the other side changed/deleted the path; otherwise it must exist on both sides at the path or a conflict-copy of it; no foreign bytes. The harness tracks the last common tree itself (never reads it from the archive).",
+   "Canonical state drops mtimes/epoch/host (mtime and order independence are checked by C06); symlinks, directory-vs-file clashes and more than E runs outside the bound. One known finding (D7, conflict-copy name collision) is matched by a cause predicate; any other loss exits 1.",
+   "DESIGN.md §2.2, §3 C02"),
+ "C06": ("E2-bisync-statespace", "model_checking",
+   "same state graph as C02; per transition: convergence, exact archive, immediate second run, and three lock-step universes (swapped argument order, adversarial mtimes)",
+   "On every completed bisync transition of the C02 state graph: (a) both trees equal; (b) the archive parses, has format 1 and the pair hash, and its entries equal exactly the tree; (c) an immediate second run plans 0 actions and changes no byte, no nanosecond mtime and no recorded entry; (d) re-running the same pre-state with the roots swapped (archive for the swapped pair) and with adversarial mtimes (newer on the losing side, epoch 0) gives identical trees and result; (e) every divergent edit ends with the greater-BLAKE3 version at the path and the other at <path>.conflict-<host>-<12hex> on both sides.",
+   "Same bounds and abstraction as C02; (e) is not asserted where the conflict-copy name is itself contested (that corner is C02's).",
+   "DESIGN.md §2.2, §3 C06"),
+ "C07": ("E2-bisync-statespace+faults", "model_checking",
+   "every reachable bisync state x every archive-fault kind (incl. every truncation point) executed on the real code",
+   "For every state of the bisync graph (quick: {f} E=2 M=2; thorough: {f} E=3 M=2 and {f,d/g} E=2 M=1) and every fault in {absent, zero-length, every truncation point (3 points for deep states), random/`null`/`[]`/`\"x\"`/`{}` garbage, 9 wrong-shape JSON objects, format_version 0 and 2, a perfect archive of another pair and of the swapped pair with adversarial entries (every present file at its current hash), only .bak/.tmp left}: Archive::load must refuse it; the dry run lists no Delete; the real run prints the SAFE no-base banner, removes no path from either side, keeps every pre-run version on both sides (path or conflict-copy) and resolves differing files as conflicts.",
+   "Same abstraction as C02. Known finding D7 (conflict-copy name collision) is reachable in no-base mode too and is matched by its cause predicate.",
+   "DESIGN.md §3 C07"),
  "C20": ("E1-enumeration+child-procs", "exploration",
    "bounded-exhaustive enumeration of header/message/byte-string spaces into all decoders under a counting allocator; CLI file readers under RLIMIT_AS and a timeout",
    "Headers: 5 magics x 7 lengths x all 256 type bytes x all 256 version bytes x 3 flag values (6.9 M) through FrameHeader::decode and read_from: accepted iff COPA, version 1, type 1..7, length <= 2^24, and accepted headers re-encode identically. Messages: all 7 kinds over boundary menus (ids, block sizes, empty/multi-byte/70 000-char strings, Option both ways, signatures/deltas from the C01 byte-level space plus a > 64 KiB one, extreme field values) through Message encode/decode, Codec write/read (COPA, version byte, LE length == payload) and bincode files; > 16 MiB refused both ways. Totality: every byte string of length <= 2 (all values) and <= 5/6 over 8 values, every truncation and 7 values at every position of ~40 valid encodings, field-level corruptions (block size, counts, lengths up to 2^64-1), into every decoder under catch_unwind with the largest single allocation bounded by 16 MiB + 64 KiB. CLI: the field corruptions and truncations of real .sig/.delta files into `copia delta`/`copia patch` under RLIMIT_AS = 1 GiB and a 10 s timeout: exit 1 with a message, or 0 only for a file that decodes; never a signal or hang.",
